@@ -64,6 +64,11 @@ def parse_gml(text: str) -> Optional[Dict[str, Any]]:
     return {"n": n, "lab": lab, "hc": [0] * n, "adj": adj}
 
 
+def elw(sym) -> int:
+    """element code with the wildcard '*' kept apart from unknown symbols"""
+    return 200 if sym == "*" else chem.elcode(sym)
+
+
 def its_rule_abs(I) -> Dict[str, Any]:
     """networkx ITS (as returned by gml_to_its) -> abstract rule in the same coding"""
     ids = list(I.nodes())
@@ -72,7 +77,7 @@ def its_rule_abs(I) -> Dict[str, Any]:
     lab = []
     for v in ids:
         gh = I.nodes[v].get("typesGH")
-        lab.append([chem.elcode(gh[0][0]), int(gh[0][3]), chem.elcode(gh[1][0]), int(gh[1][3])])
+        lab.append([elw(gh[0][0]), int(gh[0][3]), elw(gh[1][0]), int(gh[1][3])])
     adj = [[0] * n for _ in range(n)]
     for u, v, d in I.edges(data=True):
         o = d.get("order", (0, 0))
@@ -184,7 +189,20 @@ def gml_case(inp):
         add("smart_to_gml(full)" + tag, False, smart_to_gml(rsmi, core=False, reindex=reindex))
         add("its_to_gml(full-its,full)" + tag, False, its_to_gml(its, core=False, reindex=reindex))
     back = gml_to_its(its_to_gml(rc, core=True, reindex=inp["reindex"]))
-    return {"kind": "gml", "G": a[0], "H": b[0], "routes": routes, "back": its_rule_abs(back)}
+    # a generic rule: one centre atom is a wildcard ('*', possibly charged) on both sides
+    rcw = rc.copy()
+    w = sorted(rcw.nodes())[len(rcw) // 2] if len(rcw) else None
+    back_w = want_w = {"n": 0, "lab": [], "hc": [], "adj": []}
+    if w is not None:
+        gh = rcw.nodes[w]["typesGH"]
+        rcw.nodes[w]["element"] = "*"
+        rcw.nodes[w]["typesGH"] = (("*",) + tuple(gh[0][1:]), ("*",) + tuple(gh[1][1:]))
+        want_w = its_rule_abs(rcw)
+        try:
+            back_w = its_rule_abs(gml_to_its(its_to_gml(rcw, core=True, reindex=False)))
+        except Exception:
+            back_w = {"n": 0, "lab": [], "hc": [], "adj": []}
+    return {"kind": "gml", "G": a[0], "H": b[0], "routes": routes, "back": its_rule_abs(back), "back_w": back_w, "want_w": want_w}
 
 
 class S(core.Stage):
